@@ -128,7 +128,7 @@ class Excel:
             result = list((self._get_vertical_range(Cell(first.title, column_index, None), Cell(
                 first.title, column_index, None)) for column_index in range(first.column, second.column+1)))
             return result
-        elif isinstance(first.row, int) and first.row >= 0 and second.row >= 0:
+        elif isinstance(first.row, int) and isinstance(second.row, int) and first.row >= 0 and second.row >= 0:
             return self._get_matrix(first, second)
         else:
             raise E2PyclParserException('Invalid cell coordinates')
